@@ -26,9 +26,7 @@ ASSUMPTIONS = [
 FLOORS = {"depth2-two-ops": 0.2, "ordered-group": 0.1}
 
 
-@st.composite
-def _cases(draw):
-    rnd = draw(urandoms())
+def _gen_from(rnd):
     vendor = rnd.choice(["huawei", "cisco", "arista", "pc"])
     rules = RL.gen_rules(rnd)
     ctx = RL.Ctx(rules)
@@ -40,6 +38,16 @@ def _cases(draw):
         new = RL.mutate(rnd, ctx, old, 0.3)
     return {"vendor": vendor, "rules": rules, "old": RL.plain(old), "new": RL.plain(new)}
 
+
+@st.composite
+def _cases(draw):
+    return _gen_from(draw(urandoms()))
+
+
+def fuzz_decode(fdp):
+    """coverage-guided tier: the same generator driven by fuzzer-chosen bytes (vf/core/fuzz_target.py)"""
+    from vf.model.rnd import FdpRandom
+    return _gen_from(FdpRandom(fdp))
 
 def strategy(tier):
     return _cases()
